@@ -76,12 +76,15 @@ def openStepA (rels : Dict Str Str) (a : DC) (x : Xml) (inCell : Bool) : M (DC Ã
   | .nothing d => pure (a, d)
   | .queue => pure (a.queueRunA, true)
 
-def closeStepA (dup : Bool) (a : DC) (x : Xml) : M DC :=
+def closeStepACore (dup : Bool) (a : DC) (x : Xml) : M DC :=
   match tagMember x.ptag with
   | some "PARAGRAPH" => a.concludePar
   | some "RUN" => a.ensureParA
   | some "TABLE_CELL" => closeTableCell dup a x
   | _ => pure a
+
+def closeStepA (dup : Bool) (a : DC) (x : Xml) : M DC :=
+  (a.flushImplicit (elemDepth x)) >>= fun a0 => closeStepACore dup a0 x
 
 def finishA (a : DC) : M DC :=
   (if a.queued.isEmpty then pure a else a.commenceParA none false) >>= fun a1 => a1.concludePar
@@ -89,7 +92,7 @@ def finishA (a : DC) : M DC :=
 mutual
 def walkA (dup : Bool) (rels : Dict Str Str) (inCell : Bool) (a : DC) : Xml â†’ M DC
   | .elem i p t m at' tx tl ks =>
-    (a.setCaret (elemDepth (.elem i p t m at' tx tl ks)) (some t.name)) >>= fun a1 =>
+    (a.setCaretOpen (elemDepth (.elem i p t m at' tx tl ks)) (some t.name)) >>= fun a1 =>
     (openStepA rels a1 (.elem i p t m at' tx tl ks) inCell) >>= fun r =>
     (if r.2 then walkLA dup rels (inCell || isCellTag (.elem i p t m at' tx tl ks)) r.1 ks else pure r.1) >>= fun a3 =>
     (closeStepA dup a3 (.elem i p t m at' tx tl ks)) >>= fun a4 =>
